@@ -120,7 +120,7 @@ def rule_bc(ctx, cr):
               "Opcode::Restore(addr) calls restore(addr)")
     rs = cr.need_fn("mach::runtime::Runtime::restore")
     c = rs.calls_to("mach::program::Program::restore_data")
-    ctx.check(len(c) == 1 and rs.describe(c[0].args[1]) == "arg:addr", "C09.c",
+    ctx.check(len(c) == 1 and rs.describe(c[0].args[1]) == "arg:2", "C09.c",
               "Runtime::restore/forwards", rs.span, "restore(addr) -> restore_data(addr)")
     cl = cr.need_fn("mach::runtime::Runtime::clear")
     rd = [x for x in cl.calls_to("mach::program::Program::restore_data")
